@@ -49,7 +49,7 @@ def strategy(tier):
         st.tuples(st.just('read'), i),
         st.tuples(st.just('observe'), st.booleans()),
         st.tuples(st.just('minimize')),
-        st.tuples(st.just('foreign'), st.integers(0, 5), d),
+        st.tuples(st.just('foreign'), st.integers(0, 5), d, st.sampled_from(['finish', 'finish', 'abort', 'vote-abort'])),
     ).map(list)
     free = st.lists(op, min_size=3, max_size=n)
     # the savepoint clause of the statement: the same blob saved by two savepoints, roll back to one of them
@@ -340,7 +340,7 @@ class BlobWorld:
         elif k == 'pack':
             self.pack(op[1])
         elif k == 'foreign':
-            self.foreign_calls(op[1], DATA[op[2]])
+            self.foreign_calls(op[1], DATA[op[2]], op[3] if len(op) > 3 else 'finish')
         elif k == 'minimize':
             # the connection forgets every object it can (unchanged or saved by a savepoint): blobs written
             # before a savepoint are then known to the connection by their records only
@@ -351,7 +351,7 @@ class BlobWorld:
             if self.sps:
                 self.labels.add('cache-minimized-after-savepoint')
 
-    def foreign_calls(self, which, data):
+    def foreign_calls(self, which, data, end='finish'):
         """storage level: while a transaction holds a stored blob, calls made with ANOTHER transaction object are
         rejected (tpc_abort: ignored) without effect; then the transaction finishes and its blob is there"""
         from ZODB.blob import Blob
@@ -362,6 +362,7 @@ class BlobWorld:
             return
         self.tm.abort()
         self.end_txn()
+        files_at_start = set(list_blob_files(self.blob_dir))
         st_ = self.storage
         record = ObjectWriter(None).serialize(Blob())
         t1, t2 = TransactionMetaData(), TransactionMetaData()
@@ -393,6 +394,16 @@ class BlobWorld:
             if self.out.failures:
                 st_.tpc_abort(t1)
                 return
+        if end != 'finish':
+            # ... or is aborted (before or after its vote): then nothing of it may remain
+            files_before = files_at_start
+            if end == 'vote-abort':
+                st_.tpc_vote(t1)
+            st_.tpc_abort(t1)
+            self.labels.add('foreign-transaction-calls-then-abort')
+            self.tm.begin()
+            self.after_abort('abort of a raw transaction that saw calls with a foreign transaction (#%d)' % which, files_before)
+            return
         st_.tpc_vote(t1)
         tid = st_.tpc_finish(t1)
         self.rev_bytes[(oid, tid)] = data
